@@ -135,9 +135,15 @@ Reuse == UNION {{RU(cd, s, pv) : s \in ReuseShapes(cd), pv \in Prev} : cd \in {x
 Added == {RT("protobuf", s) : s \in PbList} \cup {IL("protobuf", "pblist:some")}
          \cup {RT("json", s) : s \in {"map:string", "map:strings"}} \cup {RT("form", "map:strings")}
 
+\* byte-slice bodies bypass the codec whose id the message carries (message.UnmarshalBody copies them into the *[]byte
+\* receiver): a receiver kept across calls (longer / shorter / equally long previous content, or spare capacity only) must
+\* hold exactly the new, non-empty body afterwards
+BytesReuse == {[fam |-> "codec", kind |-> "bytesreuse", codec |-> cd, shape |-> sh, prev |-> pv, expect |-> "roundtrip"] :
+                 cd \in Codecs, sh \in {"short", "long"}, pv \in {"longer", "shorter", "equal", "spare"}}
+
 VARIABLES c, done
 vars == <<c, done>>
-Init == c \in Cases \cup Window \cup Alias \cup Reuse \cup Added /\ done = FALSE
+Init == c \in Cases \cup Window \cup Alias \cup Reuse \cup Added \cup BytesReuse /\ done = FALSE
 Run == ~done /\ done' = TRUE /\ UNCHANGED c
 Spec == Init /\ [][Run]_vars
 OracleSane == (c.kind \in {"garbage", "window"}) <=> (c.expect = "clean")
